@@ -12,6 +12,7 @@ mod c15;
 mod c17;
 mod catalogue;
 mod codec;
+mod conformance;
 mod evidence;
 mod findings;
 mod gens;
